@@ -455,7 +455,10 @@ def run_case(ctx, job, idx, rng, st):
                 return
             ctx.count("kepler:kepler_uv-agrees-with-decimal-truth")
     else:
-        expected, rt, vt = tb.j2_secular(c["a"], c["e"], c["i"], c["raan"], c["argp"], c["M"], dt, mu, st["j2"], st["re"])
+        # elements of the state the given numbers represent (see form_to_cartesian): (omega, M) are individually
+        # ill-conditioned for small e but enter the model state only through well-conditioned combinations
+        ci = el.classical(r0, v0, mu)
+        expected, rt, vt = tb.j2_secular(ci["a"], ci["e"], ci["i"], ci["raan"], ci["argp"], ci["M"], dt, mu, st["j2"], st["re"])
         r2 = v2 = None
     r1n, v1n = norm(rt), norm(vt)
     tol_p, tol_v = state_tol(mu, c["a"], c["e"], c["i"], r0n, v0n, r1n, v1n, dt)
